@@ -1296,6 +1296,48 @@ def nullleak(run, fx):
         run.held('OWNFIELD', inst, '', '%d stores of fresh allocations into fields; none is nulled on a path that has not released it' % n)
 
 
+def cellalias(run, fx, rule='OWNFIELD'):
+    """OWNFIELD, "everything is freed exactly once": the cells of an owning pointer array (a member of type T**: GlyphCache::_glyphs,
+    _boxes, CachedCmap's blocks, ...) each hold their own allocation -- the destructor deletes every cell.  No assignment stores into a
+    cell of such an array a value LOADED from a cell of the same array (`_glyphs[gid] = *_glyphs`): two cells would own one object and
+    the destructor frees it twice.  (Reference locals bound to a cell are looked through.)  Expected instances on the tree: none; the
+    stores examined are counted so that the rule cannot pass by matching nothing."""
+    import re
+    arrays = set()
+    for q, rc in fx.raw['records'].items():
+        for f in rc['fields']:
+            t = (f.get('t') or '').replace('const ', '').strip()
+            if re.search(r'\*\s*\*$', t):
+                # ... whose class has a destructor that goes through the member (the cells are owned, not borrowed positions)
+                cls = q.split('::')[-1]
+                for dt in fx.fns_named(q + '::~' + cls):
+                    if any(x.get('k') == 'MemberExpr' and (x.get('d') or '').endswith('::' + f['n']) for _, e_ in dt.elements() for x in dt.walk(e_)):
+                        arrays.add(f['n'])
+    n = 0
+    bad = None
+    for fn in fx.all_fns():
+        for _, e in fn.elements():
+            if e['k'] != 'BinaryOperator' or e.get('op') != '=':
+                continue
+            lhs = fn.render(fn.N(e['c'][0]), resolve=True)
+            m = re.match(r'^\*?\(?this->(\w+)\)?(\[.*\])?$', lhs)
+            if not m or m.group(1) not in arrays or (m.group(2) is None and not lhs.startswith('*')):
+                continue
+            n += 1
+            rhs = fn.render(fn.strip_all_casts(fn.N(e['c'][1])), resolve=True)
+            arr = m.group(1)
+            if re.match(r'^\*\(?this->%s\)?$' % arr, rhs) or re.match(r'^this->%s\[.*\]$' % arr, rhs):
+                bad = bad or (fn, e, lhs, rhs, arr)
+    inst = 'no cell of an owning pointer array is filled from another cell of the same array'
+    if n < 3:
+        run.broken(rule, inst, 'expected at least 3 stores into cells of T** members (GlyphCache::_glyphs, _boxes, ...), found %d' % n, '')
+    elif bad:
+        fn, e, lhs, rhs, arr = bad
+        run.violated(rule, inst, fn.loc(e), '%s stores `%s = %s`: two cells of %s now own the same object, and the destructor, which deletes every cell, frees it twice' % (fn.q, lhs, rhs, arr))
+    else:
+        run.held(rule, inst, '', '%d stores into cells of %s' % (n, sorted(arrays)))
+
+
 def opscopy_exec(run, fx, rule='TABLETS'):
     """TABLETS: a table is handed back through the `release_table` the application supplied.  Face::Face keeps a copy of the caller's
     gr_face_ops, whose first member is the size of the CALLER's layout (an older client passes a shorter structure, a newer one a
@@ -1404,6 +1446,7 @@ def run(run):
     guarded('OWNFIELD', lambda: codemove_exec(run, fx))
     guarded('OWNFIELD', lambda: dtorguards(run, fx))
     guarded('OWNFIELD', lambda: nullleak(run, fx))
+    guarded('OWNFIELD', lambda: cellalias(run, fx))
     from . import c10 as c10_, c13 as c13_
     from .util import OnlyRules as _Only
     guarded('PRELOAD', lambda: c10_.optentry(_Only(run, ['OPTFLOW'], {'OPTFLOW': 'PRELOAD'}), fx))       # gr_face_preloadAll reaches the face from every constructor that takes options (shared with C10)
